@@ -401,7 +401,7 @@ def run(prog: Program, res: Result, tier: str) -> None:
             if need is None:
                 continue
             inst = f"{SHORT[K]}.relabel_atoms(copy=False) -> {ev.slot} holds {need}"
-            badk = [k for k in ev.vkinds if k not in (need, "<src>")]
+            badk = [k for k in ev.vkinds if k not in (need, "<src>", "<elem>")]
             if "<unknown>" in badk:
                 res.unrecognised("R-CONTAINER-KIND", inst, ev.where,
                                  f"the containers stored in {ev.slot} come "
